@@ -115,6 +115,12 @@ func ruleSets() [][]model.Rule {
 				r.NotDstSelector = "!has(a)"
 				r.DstPorts = namedPort("http")
 			})},
+		// selectors on a label that several profiles define with DIFFERENT values (first profile wins)
+		{rule("allow", func(r *model.Rule) { r.SrcSelector = "team == 'blue'" }),
+			rule("deny", func(r *model.Rule) { r.Protocol = protoP("tcp"); r.DstSelector = "team == 'red'"; r.DstPorts = namedPort("http") }),
+			rule("allow", func(r *model.Rule) { r.NotSrcSelector = "has(team)" })},
+		{rule("allow", func(r *model.Rule) { r.SrcSelector = "a == 'y' || team == 'red'" }),
+			rule("deny", func(r *model.Rule) { r.DstSelector = "role == 'web'"; r.NotDstSelector = "team == 'blue'" })},
 	}
 }
 
@@ -139,16 +145,23 @@ func buildUniverse() []*entry {
 		wep("cali0", lbl("role", "db"), []string{"p2"}, []string{"10.0.0.2/32"}),
 		wep("cali0b", lbl("a", "x"), nil, []string{"10.0.0.1/32"}),
 		wep("cali0", lbl(), []string{"p1", "pmissing"}, []string{"10.0.0.9/32"}, port("http", "tcp", 80), port("http", "udp", 80)),
+		// identical except for the ORDER of the same profile ids
+		wep("cali0", lbl("b", "1"), []string{"p0", "p1"}, []string{"10.0.0.5/32"}, port("http", "tcp", 80)),
+		wep("cali0", lbl("b", "1"), []string{"p1", "p0"}, []string{"10.0.0.5/32"}, port("http", "tcp", 80)),
 	)
 	add("wep:w1", wk(localHost, "w1"),
 		wep("cali1", lbl("a", "x"), []string{"p1"}, []string{"10.0.0.3/32"}, port("http", "tcp", 80)),
 		wep("cali1", lbl("a", "x", "role", "web"), []string{"p0", "p1"}, []string{"10.0.0.1/32"}), // shares IP with w0
 		wep("cali1", lbl("b", "2"), []string{"p2", "p0"}, []string{"10.0.0.3/32", "10.0.0.4/32"}, port("dns", "udp", 5353)),
+		wep("cali1", lbl(), []string{"p1", "p0", "p2"}, []string{"10.0.0.6/32"}, port("http", "tcp", 81)),
+		wep("cali1", lbl(), []string{"p0", "p2", "p1"}, []string{"10.0.0.6/32"}, port("http", "tcp", 81)),
 	)
 	add("wep:w2", wk(remote1, "w2"),
 		wep("cali2", lbl("a", "x"), []string{"p0"}, []string{"10.0.1.1/32"}, port("http", "tcp", 80)),
 		wep("cali2", lbl("a", "y", "role", "db"), []string{"p1"}, []string{"10.0.1.1/32", "10.0.1.2/32"}, port("http", "tcp", 81)),
 		wep("cali2", lbl("b", "1"), nil, []string{"10.0.0.1/32"}), // remote sharing local IP
+		wep("cali2", lbl("b", "1"), []string{"p0", "p1"}, []string{"10.0.1.5/32"}, port("http", "tcp", 80)),
+		wep("cali2", lbl("b", "1"), []string{"p1", "p0"}, []string{"10.0.1.5/32"}, port("http", "tcp", 80)),
 	)
 	add("wep:w3", wk(remote2, "w3"),
 		wep("cali3", lbl("role", "web"), []string{"p2"}, []string{"10.0.2.1/32"}, port("http", "tcp", 80), port("dns", "udp", 53)),
@@ -188,6 +201,9 @@ func buildUniverse() []*entry {
 			mkProf(map[string]string{"a": "x", "ns": p}),
 			mkProf(map[string]string{"role": "db", "b": "9"}),
 			mkProf(nil),
+			// the same keys with DIFFERENT values per profile
+			mkProf(map[string]string{"team": []string{"red", "blue", "green"}[i]}),
+			mkProf(map[string]string{"team": []string{"red", "blue", "green"}[i], "a": []string{"x", "y", "x"}[i], "role": []string{"db", "web", "web"}[i]}),
 		)
 	}
 	// ---- tiers ----
@@ -222,6 +238,7 @@ func buildUniverse() []*entry {
 		pol("t1", nil, "has(b)", nil, rs[7], nil),
 		pol("default", f64(10), "has(", rs[1], nil, nil), // INVALID selector
 		pol("default", f64(10), "all()", rs[1], nil, func(p *model.Policy) { p.DoNotTrack = true; p.ApplyOnForward = true }),
+		pol("default", f64(10), "team == 'blue'", rs[11], rs[12], nil),
 	)
 	add("pol:gnp-b", model.PolicyKey{Name: "gnp-b", Kind: v3.KindGlobalNetworkPolicy},
 		pol("default", f64(10), "a == 'x'", rs[2], nil, nil), // same order as gnp-a: name tie-break
@@ -230,6 +247,8 @@ func buildUniverse() []*entry {
 		pol("t1", f64(5), "a == 'x' && has(b)", rs[9], rs[1], nil),
 		pol("default", nil, "all()", rs[1], nil, func(p *model.Policy) { p.PreDNAT = true; p.ApplyOnForward = true }),
 		pol("default", f64(20), "has(a)", rs[10], rs[10], nil),
+		pol("t1", f64(2), "team == 'red' || role == 'web'", rs[11], nil, nil),
+		pol("default", f64(1), "has(team)", rs[12], rs[11], nil),
 	)
 	add("pol:np-c", model.PolicyKey{Name: "np-c", Namespace: "ns", Kind: v3.KindNetworkPolicy},
 		pol("default", f64(10), "has(a)", rs[5], rs[4], func(p *model.Policy) { p.Namespace = "ns" }),
@@ -252,6 +271,8 @@ func buildUniverse() []*entry {
 		ns(lbl("a", "x"), nil, "12.0.0.0/24", "12.0.0.0/25"),
 		ns(lbl("role", "db"), []string{"p0"}, "12.0.0.0/24", "10.0.0.1/32"),
 		ns(lbl("a", "x", "b", "1"), nil, "0.0.0.0/0"),
+		ns(lbl("b", "1"), []string{"p0", "p1"}, "13.0.0.0/24"),
+		ns(lbl("b", "1"), []string{"p1", "p0"}, "13.0.0.0/24"),
 	)
 	add("netset:n1", model.NetworkSetKey{Name: "n1"},
 		ns(lbl("a", "x"), nil, "12.0.0.0/24"), // duplicate CIDR with n0
